@@ -17,6 +17,24 @@ fn main() {
     std::panic::set_hook(Box::new(|_| {}));
     match args[1].as_str() {
         "arith" => arith::serve(),
+        "zst" => {
+            // HashTable<()> holding two distinct entries (inserted under different hashes):
+            // get_many_mut on both must return two results (C15)
+            let mut t: hashbrown::HashTable<(), Ledger> = hashbrown::HashTable::new_in(Ledger);
+            t.insert_unique(1, (), |_| 1);
+            t.insert_unique(2, (), |_| 2);
+            let r = std::panic::catch_unwind(std::panic::AssertUnwindSafe(|| {
+                let got = t.get_many_mut([1, 2], |_, _| true);
+                got.iter().filter(|o| o.is_some()).count()
+            }));
+            match r {
+                Ok(n) => println!("ZST get_many_mut on 2 distinct entries of a table of {} zero-sized elements: {} results", t.len(), n),
+                Err(p) => {
+                    let msg = p.downcast_ref::<&str>().map(|s| s.to_string()).or(p.downcast_ref::<String>().cloned()).unwrap_or("?".into());
+                    println!("ZST get_many_mut on 2 distinct entries of a table of {} zero-sized elements: panicked ({})", t.len(), msg)
+                }
+            }
+        }
         "run" => {
             let text = std::fs::read_to_string(&args[2]).expect("script");
             // a file may hold several scripts separated by lines `=== <name>`
